@@ -522,3 +522,25 @@ func (it *hashmapIter) next() tuple {
 		it.cur = it.iter.Value().Interface().(*entry)
 	}
 }
+
+type sortedMapIter struct {
+	m    map[value]value
+	keys []value
+	vals []value
+	hm   bool
+	i    int
+}
+
+func (it *sortedMapIter) next() tuple {
+	for it.i < len(it.keys) {
+		k := it.keys[it.i]
+		it.i++
+		if it.hm {
+			return []value{true, k, it.vals[it.i-1]}
+		}
+		if v, ok := it.m[k]; ok { // entries deleted during iteration are skipped
+			return []value{true, k, v}
+		}
+	}
+	return []value{false, nil, nil}
+}
